@@ -43,8 +43,11 @@ func factsCodec() {
 	ast.Inspect(fd, func(n ast.Node) bool {
 		switch x := n.(type) {
 		case *ast.BinaryExpr:
+			// exactly `size > conn.opts.maxRecvMsgSize`: no arithmetic on the peer-controlled uint32
 			if sel, ok := x.Y.(*ast.SelectorExpr); ok && sel.Sel.Name == "maxRecvMsgSize" && x.Op.String() == ">" && checkPos == 0 {
-				checkPos = int(x.Pos())
+				if id, ok := x.X.(*ast.Ident); ok && id.Name == "size" {
+					checkPos = int(x.Pos())
+				}
 			}
 		case *ast.CallExpr:
 			if id, ok := x.Fun.(*ast.Ident); ok && id.Name == "make" && makePos == 0 {
